@@ -4,7 +4,6 @@ import (
 	"fmt"
 	"go/token"
 	"go/types"
-	"os"
 	"sort"
 	"strings"
 
@@ -968,16 +967,8 @@ func classifyLoop(c *Ctx, f *ssa.Function, h *ssa.BasicBlock, loop map[*ssa.Basi
 			}
 		}
 		// (b) context test on every iteration
-		if os.Getenv("TRCHECK_DEBUG") != "" {
-			cc, _ := condCall(e.iff)
-			fmt.Println("LOOPDBG", core.FuncName(f), "exit from", e.from.Index, "cond", e.iff.Cond, "condCall", cc, "everyIter", everyIter(e.from), "hdr", h.Index)
-		}
 		if cc, _ := condCall(e.iff); cc != nil && cc.Common().IsInvoke() && cc.Common().Method.Name() == "Err" && (e.from == h || everyIter(e.from)) {
-			ok, why := ctxDeadline(c, cc.Common().Value, f, 0)
-			if os.Getenv("TRCHECK_DEBUG") != "" {
-				fmt.Println("LOOPDBG ctxDeadline", ok, why)
-			}
-			if ok {
+			if ok, why := ctxDeadline(c, cc.Common().Value, f, 0); ok {
 				return "context", "tests ctx.Err() of a deadline-bearing context on every iteration (" + why + ")"
 			}
 		}
